@@ -179,6 +179,31 @@ Proof.
   intros ob. apply slot_has_spec.
 Qed.
 
+(* (iii) as the judge tests it since the repair of this file (X.tokens_ok): the exact form, or - only when the agreed
+   commit data cd1 already carried token data - an entry cd1 carried / the merged entry of some sequence number of
+   cd1's interval (the two alternatives of C07_used_needs_quorum_cycle) *)
+Definition tok_quorums (fc : list (N * Z)) (aos : list sao) (k s : N) (bytes : list N) : Prop :=
+  exists f, alookup k fc = Some f /\
+    forall n d, nth_error bytes n = Some d -> quorum (xtok_of k s n) (f_plus_1 f) aos (EM.mkTok true d).
+Definition token_clause (fc : list (N * Z)) (aos : list sao) (cd1 : cdata) (k s : N) (bytes : list N) : Prop :=
+  tok_quorums fc aos k s bytes \/
+  (c_td cd1 <> [] /\
+   ((exists td, In td (c_td cd1) /\ td_ready td = true /\ td_bytes td = bytes) \/
+    exists s', PS.in_range (c_start cd1) (c_end cd1) s' = true /\ tok_quorums fc aos k s' bytes)).
+
+Lemma tokens_ok_sound fchain aos cd1 k s bytes :
+  NoDup (map fst aos) -> X.tokens_ok fchain aos cd1 k s bytes = true -> token_clause fchain aos cd1 k s bytes.
+Proof.
+  intros ND H. unfold X.tokens_ok in H. apply orb_prop in H. destruct H as [H|H].
+  - left. exact (tokens_agreed_sound _ _ _ _ _ ND H).
+  - right. destruct (c_td cd1) as [|td0 tds] eqn:Etd; [discriminate|]. split; [discriminate|].
+    apply orb_prop in H. destruct H as [H|H].
+    + left. apply existsb_exists in H. destruct H as [td [Hin H]]. apply andb_prop in H. destruct H as [Hr Hb].
+      apply (leqb_iff _ N_iff) in Hb. now exists td.
+    + right. apply existsb_exists in H. destruct H as [s' [_ H]]. apply andb_prop in H. destruct H as [Hr Ht].
+      exists s'. split; [exact Hr|]. exact (tokens_agreed_sound _ _ _ _ _ ND Ht).
+Qed.
+
 (* not flagged too costly by f_dest + 1: C07_not_costly_cycle *)
 Lemma not_costly_sound fdest aos mid rs :
   X.not_costly fdest aos mid = true ->
@@ -226,7 +251,8 @@ Qed.
 (*  3. one chain report of a Filter outcome against the two agreed rounds before it                        *)
 (* ====================================================================================================== *)
 (* what the judge establishes for a message mm of a chain report r: the clauses of C07_used_needs_quorum_cycle with
-   (iii) in the exact form of C07_token_data_cycle and the costly clause in the form of C07_not_costly_cycle *)
+   (iii) in the exact form of C07_token_data_cycle whenever the agreed commit data carried no token data (else in the
+   form of C07_used_needs_quorum_cycle: [token_clause]) and the costly clause in the form of C07_not_costly_cycle *)
 Definition report_clauses (dest : N) (h : N -> N -> N)
     (fc1 : list (N * Z)) (aos1 : list sao) (o1 : outcome) (fc2 : list (N * Z)) (aos2 : list sao) (o2 : outcome)
     (r : creport) (mm : msg) : Prop :=
@@ -251,9 +277,8 @@ Definition report_clauses (dest : N) (h : N -> N -> N)
     (* (iii) *)
     length (r_msgs r) = length (r_td r) /\
     (forall p, nth_error (r_msgs r) p = Some mm ->
-       exists bytes f, nth_error (r_td r) p = Some bytes /\ alookup (r_src r) fc2 = Some f /\
-         forall n d, nth_error bytes n = Some d ->
-           quorum (xtok_of (r_src r) (m_seq mm) n) (f_plus_1 f) aos2 (EM.mkTok true d)) /\
+       exists bytes, nth_error (r_td r) p = Some bytes /\
+                     token_clause fc2 aos2 (xc_cd x) (r_src r) (m_seq mm) bytes) /\
     (forall rs, NoDup rs -> (forall o, In o rs -> exists ob, In (o, ob) aos2 /\ In (m_id mm) (so_costly ob)) ->
        (Z.of_nat (length rs) < EM.f_dest dest fc2 + 1)%Z).
 
@@ -295,14 +320,15 @@ Proof.
   apply andb_prop in H. destruct H as [H Hex]. apply andb_prop in H. destruct H as [Hown Hrev].
   apply Nat.eqb_eq in Hlen. apply reverify_sound in Hrev.
   unfold C8.owns in Hown. apply andb_prop in Hown. destruct Hown as [Hsrc2 _]. apply N.eqb_eq in Hsrc2.
-  apply existsb_exists in Hex. destruct Hex as [cd1 [Hcd1 Hex]]. apply andb_prop in Hex. destruct Hex as [Hex Hnex].
+  apply existsb_exists in Hex. destruct Hex as [cd1 [Hcd1 Hex]]. apply andb_prop in Hex. destruct Hex as [Hex Htoks].
+  apply andb_prop in Hex. destruct Hex as [Hex Hnex].
   apply andb_prop in Hex. destruct Hex as [Hcore Hagr].
   apply core_eqb_sound in Hcore. destruct Hcore as [Es [Er [Ea [Ee Ex]]]].
   destruct (commit_agreed_sound _ _ _ _ ND1 Hagr) as [Hk [x [Ecd Hq]]]. subst cd1.
-  rewrite forallb_forall in Hnex, Hall.
+  rewrite forallb_forall in Hnex, Hall, Htoks.
   destruct (In_nth_error _ _ Hmm) as [p0 Hp0].
   destruct (combine_nth _ _ _ _ Hlen Hp0) as [b0 [_ Hc0]]. pose proof (Hall _ Hc0) as H0. cbn [fst snd] in H0.
-  apply andb_prop in H0. destruct H0 as [H0 Hcost]. apply andb_prop in H0. destruct H0 as [H0 _].
+  apply andb_prop in H0. destruct H0 as [H0 Hcost].
   apply andb_prop in H0. destruct H0 as [H0 Hmsg]. apply andb_prop in H0. destruct H0 as [Hms Hin2].
   apply N.eqb_eq in Hms. apply (existsb_iff _ msg8_iff) in Hin2.
   destruct (msg_agreed_sound _ _ _ _ ND2 Hmsg) as [fk [xm [_ [Hfk [Exm Hqm]]]]].
@@ -315,9 +341,8 @@ Proof.
   pose proof (Hnex _ Hmm) as Hn1. apply andb_prop in Hn1. destruct Hn1 as [Hn1 Hrng].
   split; [now apply negb_true_iff|]. split; [exact Hrng|].
   split; [exact Exm|]. split; [exact Hfk|]. split; [exact Hqm|]. split; [exact Hlen|]. split.
-  - intros p Hp. destruct (combine_nth _ _ _ _ Hlen Hp) as [bytes [Hb Hc]]. pose proof (Hall _ Hc) as H1. cbn [fst snd] in H1.
-    apply andb_prop in H1. destruct H1 as [H1 _]. apply andb_prop in H1. destruct H1 as [_ Htok].
-    destruct (tokens_agreed_sound _ _ _ _ _ ND2 Htok) as [f [Hf Hall']]. now exists bytes, f.
+  - intros p Hp. destruct (combine_nth _ _ _ _ Hlen Hp) as [bytes [Hb Hc]]. pose proof (Htoks _ Hc) as Htok. cbn [fst snd] in Htok.
+    exists bytes. split; [exact Hb|]. exact (tokens_ok_sound _ _ _ _ _ _ ND2 Htok).
   - intros rs NDr Hrs. exact (not_costly_sound _ _ _ rs Hcost NDr Hrs).
 Qed.
 
@@ -681,6 +706,110 @@ Module WeakCase.
     destruct Hin as [E|[]]. rewrite <- E in Hr. vm_compute in Hr. discriminate.
   Qed.
 End WeakCase.
+
+(* ====================================================================================================== *)
+(*  8b. the token test as it was before this file decided the flagged question: the exact form of                *)
+(*      C07_token_data_cycle applied unconditionally - a false alarm on the model's own output                    *)
+(* ====================================================================================================== *)
+(* DECISION.  Can the MODEL's own output fail the exact test [X.tokens_agreed]?  Yes: whenever commit data that already
+   carry token data are agreed in the GetCommitReports round and a report is built from them (getMessagesOutcome
+   appends to MessageTokenData, the builder compares lengths only), the token data used for a message is what the
+   agreed commit data carried - C07_used_needs_quorum_cycle allows exactly that, the exact test does not.  [TokCase]
+   below is such a cycle: every structural premise of (a) holds on it (distinct oracles, validated well-formed
+   observations, Go maps, ids functional, f = 1, cycle starting in state Unknown).
+   The CURRENT generator (harness/execute/execsys_test.go) cannot reach it: the only shape that puts non-empty token
+   data into commit data is "with-messages", applied by the deviating oracles to reports their honest readers also
+   return; in every class the n - nb honest up-to-date oracles are >= f_dest + 1 whenever the nb deviating ones are
+   (n = 4: 2 and 2, f_dest = 1; n = 7: nb <= 3, f_dest <= 2), so the plain version of the same report is agreed as
+   well and dropConflictingReports (repair of F76) drops both; "hidden-full" reports carry only EMPTY token data
+   entries (and the length check then fails the Filter round unless no token data at all is agreed).  That is a
+   counting property of today's classes, not a structural guarantee, so the test was repaired (minimal: identical to
+   the exact test whenever the agreed commit data carry no token data). *)
+Section Before.
+  Variable g : X.scfg.
+  Variable h : N -> N -> N.
+  Definition chain_report_ok_tok_before (r1 r2 : X.rctx) (r : creport) : bool :=
+    existsb (fun cd2 =>
+      C8.owns cd2 r && C8.reverify h r (c_root cd2) &&
+      existsb (fun cd1 =>
+        X.core_eqb cd1 cd2 && X.commit_agreed (X.s_dest g) (X.rc_fchain r1) (X.rc_aos r1) cd1 &&
+        forallb (fun m => negb (memN (m_seq m) (c_exec cd1)) &&
+                          PS.in_range (c_start cd1) (c_end cd1) (m_seq m)) (r_msgs r))
+        (o_pending (X.rc_out r1)) &&
+      Nat.eqb (length (r_msgs r)) (length (r_td r)) &&
+      forallb (fun mt =>
+        let m := fst mt in
+        N.eqb (m_src m) (r_src r) && existsb (C8.msg_eqb m) (c_msgs cd2) &&
+        X.msg_agreed (X.rc_fchain r2) (X.rc_aos r2) (r_src r) m &&
+        X.tokens_agreed (X.rc_fchain r2) (X.rc_aos r2) (r_src r) (m_seq m) (snd mt) &&
+        X.not_costly (X.fdest_of g (X.rc_fchain r2)) (X.rc_aos r2) (m_id m))
+        (combine (r_msgs r) (r_td r)))
+      (o_pending (X.rc_out r2)).
+  Definition report_ok_before (r1 r2 : option X.rctx) (fchain3 : list (N * Z)) (aos3 : list sao) (o3 : outcome) : bool :=
+    match o_report o3 with
+    | [] => true
+    | rs =>
+        match r1, r2 with
+        | Some a, Some b =>
+            forallb (chain_report_ok_tok_before a b) rs &&
+            X.nonces_walk (X.fdest_of g fchain3) aos3 [] (flat_map r_msgs rs)
+        | _, _ => false
+        end
+    end.
+  Fixpoint walk_before (cur : outcome) (r1 r2 : option X.rctx) (rs : list X.sround_in) (outs : X.sys_out) : bool :=
+    match rs, outs with
+    | r :: rs', (vals, o) :: outs' =>
+        let aos := X.accepted vals (snd r) in
+        match o with
+        | Ok x =>
+            let st := match PS.exec_next (o_state cur) with Ok s => s | _ => 0%N end in
+            if N.eqb st 2 then walk_before x (Some (X.mkRC (fst r) aos x)) None rs' outs'
+            else if N.eqb st 3 then
+              X.carried cur x && walk_before x r1 (Some (X.mkRC (fst r) aos x)) rs' outs'
+            else report_ok_before r1 r2 (fst r) aos x && walk_before x None None rs' outs'
+        | Err => walk_before cur r1 r2 rs' outs'
+        | _ => false
+        end
+    | [], [] => true
+    | _, _ => false
+    end.
+End Before.
+Definition sys_safe_before (i : X.sys_in) (o : X.sys_out) : bool :=
+  let '(g, prev, rs) := i in
+  walk_before g (C8.thash (C8.mk_htable (X.s_table g))) prev None None rs o && X.noreexec_ok g o.
+
+(* the exact token test alone, as it stood inside chain_report_ok *)
+Definition tokens_agreed_before := X.tokens_agreed.
+
+Module TokCase.
+  Local Open Scope N_scope.
+  Import SysCase.
+  (* oracles 0 and 1 (f + 1 = 2) report the commit report of SysCase with token data [(ready, 9)] already inside;
+     oracles 2 and 3 report nothing in that round; in the GetMessages round all four report both messages and token
+     data for sequence number 6 only, so that the lengths match again *)
+  Definition xt : xcommit := mkXC 52 1000 (mkCD 1 root 5 6 [] [] [] [[(true, 9)]]).
+  Definition c1 : sobs := mkSO [(1, [xt])] [] [] [] [].
+  Definition e1 : sobs := mkSO [] [] [] [] [].
+  Definition t2 : sobs := mkSO [] [(1, [(5, SysEx.xm1); (6, SysEx.xm2)])] [(1, [(6, [])])] [] [].
+  Definition i : X.sys_in :=
+    (g, out_init, [(SysEx.fc, [(0, [1; 9], c1); (1, [1; 9], c1); (2, [1; 9], e1); (3, [1; 9], e1)]);
+                   (SysEx.fc, four t2 t2); (SysEx.fc, four SysEx.h3 SysEx.b3)]).
+  Definition aos2 : list sao := [(0, t2); (1, t2); (2, t2); (3, t2)].
+  (* the model's own history: rejected by the judge as it was, accepted by the repaired one; the report's first
+     message (sequence number 5) uses token bytes [9] - carried by the agreed commit data, which
+     C07_used_needs_quorum_cycle allows, reported by nobody in the GetMessages round *)
+  Example tokens_agreed_before_false_alarm :
+    sys_safe_before i (X.sys_model i) = false /\ X.sys_safe i (X.sys_model i) = true /\
+    X.sys_judge [(i, X.sys_model i)] = [] /\ X.sys_judge_noclass [(i, X.sys_model i)] = [] /\
+    map (fun vo => match snd vo with
+                   | Ok o => map (fun r => (map m_seq (r_msgs r), r_td r)) (o_report o)
+                   | _ => []
+                   end) (X.sys_model i) = [[]; []; [([5; 6], [[9]; []])]] /\
+    tokens_agreed_before SysEx.fc aos2 1 5 [9] = false /\
+    X.tokens_ok SysEx.fc aos2 (xc_cd xt) 1 5 [9] = true /\
+    In [(true, 9)] (c_td (xc_cd xt)).
+  Proof. repeat split; try (vm_compute; reflexivity). now left. Qed.
+End TokCase.
 
 (* ====================================================================================================== *)
 (*  9. (a), the f+1 clause tests: in a cycle of the MODEL every message of the Filter report passes them    *)
